@@ -2,16 +2,19 @@
 from propcommon import COMMON_MODELLED
 PROP = dict(
         gotest="TestC03",
-        translator="arithC03",
-        extra_props=["ArithTieC03"],
+        translator=["arithC03", "arithC03b"],
+        extra_props=["ArithTieC03", "ArithTieC03b"],
         extra_gotests=[("TestZdec", "Zdec")],
         model="coq/Models/AmmSwap.v (exact over Z, raw 18-decimal integers with the SDK's range panics: solveConstantFunctionInvariant, "
               "Pow incl. powerApproximation (ApproxSqrt, maclaurin series, ln/exp method) as fuelled loops with the Go exit conditions, "
               "CalculateTokenARate, CalcOutAmtGivenIn / CalcInAmtGivenOut for constant-product and oracle-weighted pools incl. accounted-pool "
               "balances and the slippage value, ApplyDiscount, the oracle-pool SwapOutAmtGivenIn / SwapInAmtGivenOut (external-liquidity resizing, "
-              "balancer slippage of the resized trade, value formula with the weight-breaking fee taken from the implementation), "
-              "the bonus decision of keeper.UpdatePoolForSwap)",
-        coq_deps=["Base/", "Models/AmmSwap.v", "Proofs/AmmSwapProofs.v", "Proofs/AmmSwapProofs2.v", "Proofs/PowBounds.v", "Proofs/PowSeries.v", "Run/AmmSwapRun.v", "Run/ZdecRun.v", "Props/C03.v", "Generated/ArithC03.v", "Proofs/ArithTieTac.v", "Proofs/ArithTieC03.v", "Props/ArithTieC03.v"],
+              "balancer slippage of the resized trade, value formula), the bonus decision of keeper.UpdatePoolForSwap); "
+              "coq/Models/WeightFee.v (exact: the WEIGHT-BREAKING FEE of oracle pools - GetOraclePoolNormalizedWeights, NormalizedWeights, "
+              "WeightDistanceFromTarget before / after the swap, NewPoolAssetsAfterSwap, GetDenomOracleAssetWeight / GetDenomNormalizedWeight, "
+              "GetWeightBreakingFee (Pow of the weight ratio, multiplier, 0.99 cap), perpetual factor, portion, threshold, and the whole of the "
+              "oracle SwapOutAmtGivenIn / SwapInAmtGivenOut with the fee and the weightBalanceBonus COMPUTED from the pool state and the amm params)",
+        coq_deps=["Base/", "Models/AmmSwap.v", "Proofs/AmmSwapProofs.v", "Proofs/AmmSwapProofs2.v", "Proofs/PowBounds.v", "Proofs/PowSeries.v", "Run/AmmSwapRun.v", "Models/WeightFee.v", "Proofs/WeightFeeProofs.v", "Run/WeightFeeRun.v", "Run/ZdecRun.v", "Props/C03.v", "Generated/ArithC03.v", "Proofs/ArithTieTac.v", "Proofs/ArithTieC03.v", "Props/ArithTieC03.v", "Generated/ArithC03b.v", "Proofs/ArithTieC03b.v", "Props/ArithTieC03b.v"],
         rule="pure cases on types.Pool values: Pow on bases around every branch boundary (0.5, 1, 2, just below 2, tiny, huge, <= 0) x exponents of every "
              "class (integer 0..100, 1/2, 2.5, w1/w2, tiny); CalcOut/CalcIn with reserves 0, 1, 10^k, per decade 1..1e31, weights equal / integer ratio / "
              "ratio 1/2 and 3/2 / fractional 1..100:1..100, fees 0, 1 ulp, 0.1%..2%, random <= 2%, >= 1 (invalid), accounted balances, amounts 0, 1, dust, "
@@ -26,8 +29,15 @@ PROP = dict(
              "treasuries, tier discounts (users hold 9e18 of each token), history 0 = the witness of C03_one_unit_refuted / C03_round_trip_gain_refuted / "
              "C03_one_unit_in_refuted through MsgCreatePool + swaps. distinct = distinct inputs; non-trivial = the call succeeded",
         trusted_base=["tools/gotrans arith (Go AST + go/types -> Gallina over Base/Zdec.v): the method table of coq/Generated/ARITH_README.md (Int/LegacyDec method -> Zdec function, validated by TestZdec); what the opaque readers of a translated function return is covered by the correspondence run only",
-                      "the weight-breaking fee of oracle pools (GetWeightBreakingFee incl. the weight-distance computation) is an input resolved from the "
-                      "implementation's return value (-weightBalanceBonus when negative, else 0); theorems quantify over all values in [0,1]",
+                      "MOVED from 'taken from the implementation' to 'modelled exactly': the weight-breaking fee and the weightBalanceBonus of oracle pools "
+                      "(Models/WeightFee.v; case kinds 12-16 of Run/WeightFeeRun.v compare the model's amount + bonus with what the real swap function returned, "
+                      "failures included, on every generated oracle case and every app swap; Props/ArithTieC03b.v ties GetWeightBreakingFee as a whole and the "
+                      "fee / bonus decision, distanceDiff, amount formulas and the GetOraclePoolNormalizedWeights loop bodies to the Go text). Still covered by "
+                      "the correspondence run only: the loop of WeightDistanceFromTarget (indexed slices, len), NormalizedWeights, NewPoolAssetsAfterSwap, "
+                      "the per-denom weight lookups, which pool assets / accounted balances / oracle prices the keeper hands to these functions. The old "
+                      "fee-parameterised kinds 3, 4, 9, 10 are kept (fee = -weightBalanceBonus when negative)",
+                      "app histories have two-asset oracle pools only (the model and its theorems take any number of assets; 0-4 assets are exercised by the "
+                      "direct WeightDistanceFromTarget cases)",
                       "cases whose Pow series would need more than ~1200 (quick) / 12000 (thorough) iterations in Coq's VM are run on the Go code and checked "
                       "by the implementation-side predicate only (counted in evidence extra.coq_budget)",
                       "bank-level atomicity and the routing/queue code around the pool functions are used as they are (C04's subject)"],
@@ -40,21 +50,27 @@ PROP = dict(
                    "A->B->A returns <= a + 2(B_in+a)(HALF+1)/1e36 (nothing above a below 1e18, refuted above: 2000 -> 3000); split trade gains <= 1 + "
                    "B_out(3HALF+2)/1e36; oracle pools: value out <= value in + 0.5e-18 out-token (exact-in), value in > value out - (0.5+1e-18)e-18 in-token "
                    "(exact-out) for all prices, ratios, slippage amounts, weight-breaking fees in [0,1]; bonus <= treasury balance, only for oracle pools with "
-                   "a positive rate, <= base*rate. Unequal weights with an INTEGER ratio w_in/w_out = n (Pow = LegacyDec.Power, n-1 rounding multiplications): "
+                   "a positive rate, <= base*rate. WITH THE FEE COMPUTED BY THE MODEL (no fee parameter): GetWeightBreakingFee in [0, 0.99]; the same two value "
+                   "statements for the whole swap functions; fee = 0 when the weight distance falls, bonus = -fee <= 0 when it does not, bonus > 0 only from above the "
+                   "threshold and <= 0.99*portion; fee >= min(0.99, multiplier) when the distance grows and the weight ratio handed to Pow is >= 1; treasury pays <= "
+                   "min(balance, base*0.99*portion). Unequal weights with an INTEGER ratio w_in/w_out = n (Pow = LegacyDec.Power, n-1 rounding multiplications): "
                    "FULL statement out <= B_out*(1-(B_in/(B_in+a'))^n) + B_out*((2n-1)/2+n*1e-18)*1e-18 against the exact rational power (one unit proved for "
                    "B_out*((2n-1)e18+2n) <= 2e36, refuted above by a 3:1 witness), exact-out in >= B_in*(z^n*(1-(n-1)/2e18)-1); Pow >= 1 for every exponent on "
                    "bases in [1,2) (alternating Maclaurin series with non-increasing terms; Newton square root stays in [1,d]), 0 <= Pow <= 1 on bases in [0.5,1], "
                    "1 <= Pow(y,e) <= y for e in [0,1]. Other unequal weights: _partial (payout = trunc(B_out*(1-pw)) with pw = the exact model of Pow; the 1e-8 "
                    "real-analysis bound of the fractional series and the whole ln/exp method are not proved). The model (incl. Pow) is evaluated by Coq's VM on every input the real functions were called with "
                    "and must return the same integers and error kind; every app swap must be explained by the pure function on the state before the block.",
-        level_note="Trusted: Coq kernel+VM; the Go harness; weight-breaking fee taken from the implementation; precision of Pow for fractional exponents "
+        level_note="Trusted: Coq kernel+VM; the Go harness; weight-breaking fee MODELLED (range proved for exponents with fractional part 0 or 1/2, incl. the chain's 2.5; _partial otherwise); precision of Pow for fractional exponents "
                    "checked only by the exact rational reference on generated inputs.",
         assumptions=["equal-weight theorems assume non-negative reserves and fee in [0,1); the one-unit corollaries assume B_out <= 2e18-4 resp. the stated "
                      "bound on B_in and are refuted above it (C03_one_unit_refuted, C03_one_unit_in_refuted, C03_round_trip_gain_refuted)",
                      "C03_weighted_out_partial / C03_weighted_in_partial: bound in terms of any lower bound lb <= pw of the value Pow returns",
                      "C03_weighted_out_integer_ratio / C03_weighted_in_integer_ratio assume w_in = n*w_out resp. w_out = n*w_in with n >= 1, non-negative "
                      "reserves and amount, fee in [0,1] resp. [0,1); C03_pow_ge_one / C03_pow_le_one / C03_pow_between_one_and_base do not cover the ln/exp method",
-                     "oracle theorems assume 0 <= weight-breaking fee <= 1 (the code caps it at 0.99 and multiplies by a perpetual factor <= 1) and prices >= 0",
+                     "the fee-parameterised oracle theorems assume 0 <= weight-breaking fee <= 1 and prices >= 0; the _with_fee theorems DISCHARGE that: they assume only what Params.Validate "
+                     "enforces (multiplier, portion >= 0), a perpetual factor in [0,1], and an exponent >= 0 whose fractional part is 0 or 1/2 (C03_wbf_in_range; "
+                     "C03_wbf_in_range_partial for any exponent on which Pow is non-negative)",
+                     "C03_fee_positive_when_worsening is stated on the ratio the code hands to Pow (x >= 1); that a growing distance implies x >= 1 is not proved",
                      "C03_split_no_gain / C03_round_trip_no_gain are stated for the pool states named in their hypotheses (second leg on the pool after the "
                      "first leg; the fee skim's own half-unit rounding of the in-reserve is outside the split statement)"],
     )
